@@ -210,6 +210,12 @@ def c15(tier, seed):
                     timeout=400 * scale))
     out.append(case('bp-waves-tsan', 'bpreg', 'bp', 'tsan', ['--growth=2', '--max-live=%d' % (maxlive // 3), '--sig=0'], {}, cpus=8,
                     timeout=400 * scale))
+    # first rcu_read_lock() of fresh bp threads single-stepped (EFLAGS.TF), with a handler that takes a read-side
+    # section aimed at every instruction between the entry of urcu_bp_register() and its SIG_BLOCK (harness of C19):
+    # a registration that can be re-entered from a handler leaks a registry slot (arena census after each thread)
+    out.append(case('bp-first-lock-stepped', 'sigrd', 'bp', 'plain',
+                    ['--cfg=c15-bp-first-lock-stepped', '--traps=%d' % (40000 * scale), '--episodes=%d' % (300 * scale),
+                     '--placement=0', '--logscale=1'], {}, cpus=5, timeout=300 * scale))
     out.append(case('bp-waves-nomb', 'bpreg', 'bp', 'plain', ['--growth=0', '--max-live=%d' % maxlive],
                     {'VP_NO_MEMBARRIER': '1'}, cpus=8, timeout=300 * scale))
     return out
